@@ -100,7 +100,7 @@ theorem ex_parse :
   simp (config := {decide := true}) only [parseExprLoop, typedBuilder, ex_g, ex_f, ex_s, ex_app1, ex_app2,
     pd_g, pd_f, ↓reduceIte]
 
-/-- the tree after the fixing pass, before normalisation: `g` still has the type `x ** x` -/
+/-- the tree after the fixing pass `fixExprCore` alone (no normalisation): `g` still has the type `x ** x` -/
 def eCore : TExpr :=
   .app eG (.app eF (.src 0 none (.app 5 [])) (.app 6 [])) (.app 6 [])
 
@@ -118,10 +118,85 @@ theorem ex_norm3 (o : Nat) : normT s5.store (.app o []) = .app o [] := by
   have hl : s5.store.vars.length + 64 = 66 := rfl
   simp only [normT, hl, normTerm, normTermL, followT_app]
 
+/-- the same in the store before fixing (`x := B` is already bound there) -/
+theorem ex_norm1' : normT s4.store (.app FUN [.var 0, .var 0]) = .app FUN [.app 6 [], .app 6 []] := by
+  have h0 : followT s4.store (.var 0) = .app 6 [] := rfl
+  have hl : s4.store.vars.length + 64 = 66 := rfl
+  simp only [normT, hl, normTerm, normTermL, followT_app, h0]
+theorem ex_norm2' : normT s4.store (.app FUN [.app 5 [], .app 6 []]) = .app FUN [.app 5 [], .app 6 []] := by
+  have hl : s4.store.vars.length + 64 = 66 := rfl
+  simp only [normT, hl, normTerm, normTermL, followT_app]
+
+/-- the two `fix` steps of the run: the source's variable is bound to its upper bound `A` (and `fix` returns `A`);
+a base type is left alone -/
+theorem ex_fix_src : fix c4L exprFuel s4.store (.var 1) false = .ok (s5.store, .app 5 []) := by with_unfolding_all rfl
+theorem ex_fix_base : fix c4L exprFuel s5.store (.app 6 []) true = .ok (s5.store, .app 6 []) := by
+  with_unfolding_all rfl
+
+/-- `Expr.fix()` node by node: `g` is normalised in the store before fixing (where `x := B` already holds), the
+source is fixed to `A` and normalised in the store after that step -/
 theorem ex_fix : fixExpr c4L s4.store eGFS = .ok (s5.store, eFixed) := by
-  unfold fixExpr
-  rw [ex_fixCore]
-  simp only [eCore, eG, eF, normExpr, ex_norm1, ex_norm2, ex_norm3, eFixed]
+  simp only [eGFS, eFS, eG, eF, eS, fixExpr, ex_norm1', ex_norm2', ex_fix_src, ex_fix_base, ex_norm3, eFixed]
+
+/-! ### a stale type: `g -` with the source's variable only bounded by `A` when `g` is normalised
+
+`g : x ** x` was applied to a source whose variable `x` (shared with `g`) is unbound with upper bound `A`.
+`Expr.fix()` normalises `g` first (nothing to follow), then fixes the source, which binds `x := A`: the
+stored type of `g` keeps the variable, while normalising against the final store gives `A ** A`. Both trees
+are typed in the final store (`fixExpr_typed`, `normExpr_typed`). -/
+
+def u0 : Store := { vars := [{ upper := some 5, cset := 0 }], csets := [[]] }
+def u1 : Store := { vars := [{ bound := some (.app 5 []), upper := some 5, cset := 0 }], csets := [[]] }
+def eU : TExpr := .app eG (.src 0 none (.var 0)) (.var 0)
+/-- the result of `Expr.fix()`: the type of `g` still mentions the variable -/
+def eUfixed : TExpr := .app eG (.src 0 none (.app 5 [])) (.app 5 [])
+/-- the fixing pass followed by normalisation against the final store -/
+def eUnorm : TExpr := .app (.op "g" (.app FUN [.app 5 [], .app 5 []])) (.src 0 none (.app 5 [])) (.app 5 [])
+
+theorem u0_good : GoodStore c4L u0 := ⟨okStoreB_sound (by decide), noConstraintsB_sound (by decide)⟩
+
+theorem eU_typed : TypedIn c4L u0 eU :=
+  ⟨by decide, fun ρ hρ => by
+    unfold eU eG WellTyped
+    refine ⟨by unfold WellTyped; trivial, by unfold WellTyped; trivial, Or.inl ⟨ρ 0, ?_, ?_⟩⟩
+    · simp only [TExpr.ty, den_app, denL_cons, denL_nil, den_var]
+    · simp only [TExpr.ty, den_var]
+      exact sub_refl _ (hρ.wf 0)⟩
+
+theorem exU_norm0 : normT u0 (.app FUN [.var 0, .var 0]) = .app FUN [.var 0, .var 0] := by
+  have h0 : followT u0 (.var 0) = .var 0 := rfl
+  have hl : u0.vars.length + 64 = 65 := rfl
+  simp only [normT, hl, normTerm, normTermL, followT_app, h0]
+theorem exU_norm1 : normT u1 (.app FUN [.var 0, .var 0]) = .app FUN [.app 5 [], .app 5 []] := by
+  have h0 : followT u1 (.var 0) = .app 5 [] := rfl
+  have hl : u1.vars.length + 64 = 65 := rfl
+  simp only [normT, hl, normTerm, normTermL, followT_app, h0]
+theorem exU_norm2 : normT u1 (.app 5 []) = .app 5 [] := by
+  have hl : u1.vars.length + 64 = 65 := rfl
+  simp only [normT, hl, normTerm, normTermL, followT_app]
+theorem exU_fix_src : fix c4L exprFuel u0 (.var 0) false = .ok (u1, .app 5 []) := by with_unfolding_all rfl
+theorem exU_fix_app : fix c4L exprFuel u1 (.var 0) true = .ok (u1, .app 5 []) := by with_unfolding_all rfl
+
+theorem exU_fix : fixExpr c4L u0 eU = .ok (u1, eUfixed) := by
+  simp only [eU, eG, fixExpr, exU_norm0, exU_fix_src, exU_fix_app, exU_norm2, eUfixed]
+
+theorem exU_fixCore : fixExprCore c4L u0 eU = .ok (u1, eUfixed) := by with_unfolding_all rfl
+
+theorem exU_normExpr : normExpr u1 eUfixed = eUnorm := by
+  simp only [eUfixed, eG, normExpr, exU_norm1, exU_norm2, eUnorm]
+
+/-- the stored type of `g` after `Expr.fix()` is not the normalised one -/
+theorem exU_stale : eUfixed ≠ eUnorm := by
+  unfold eUfixed eUnorm eG
+  intro h
+  injection h with h1 _ _
+  injection h1 with _ h2
+  injection h2 with _ h3
+  injection h3 with h4 _
+  cases h4
+
+theorem exU_sat : Sat c4L (valOf [.app 5 []]) u1 :=
+  satB_sound c4L_wf (okStoreB_sound (by decide)) (by decide)
 
 theorem ex_parseTyped_nofix : parseTyped c4P c4ops 0 ["g", "(", "f", "-", ")"] false = .ok (s4, eGFS) := by
   unfold parseTyped
